@@ -101,9 +101,46 @@ def is_fp_like(v):
     return isinstance(v, float) or (z3.is_expr(v) and z3.is_fp(v))
 
 
+def z3str(val):
+    """Python string of a z3 string model value (z3 leaves \\u{..} escapes for NUL / astral characters)"""
+    import re
+    return re.sub(r"\\u\{([0-9a-fA-F]+)\}", lambda m: chr(int(m.group(1), 16)), val.as_string())
+
+
+def is_str_like(v):
+    return isinstance(v, str) or (z3.is_expr(v) and z3.is_string(v))
+
+
+def to_str(v):
+    if isinstance(v, str):
+        return z3.StringVal(v)
+    if z3.is_expr(v) and z3.is_string(v):
+        return v
+    raise Untranslatable(f"not a string: {v!r}")
+
+
+def replace_all(s, a, b):
+    """str.replace_all through the C API (z3py has no wrapper)"""
+    ctx = s.ctx
+    return z3.SeqRef(z3.Z3_mk_seq_replace_all(ctx.ref(), s.as_ast(), a.as_ast(), b.as_ast()), ctx)
+
+
+WS_CHARS = " \t\n\r\x0b\x0c"
+
+
+def ws_star():
+    return z3.Star(z3.Union(*[z3.Re(c) for c in WS_CHARS]))
+
+
 def to_bool(v):
     if v is None:
         return z3.BoolVal(False)
+    if isinstance(v, str):
+        return z3.BoolVal(bool(v))
+    if z3.is_expr(v) and z3.is_string(v):
+        return z3.Length(v) > 0
+    if isinstance(v, (list, tuple)):
+        return z3.BoolVal(bool(v))
     if isinstance(v, bool):
         return z3.BoolVal(v)
     if z3.is_expr(v) and z3.is_bool(v):
@@ -198,6 +235,8 @@ class Translator:
         return self.ite(c, a, b)
 
     def ite(self, c, a, b):
+        if is_str_like(a) and is_str_like(b):
+            return z3.If(c, to_str(a), to_str(b))
         if isinstance(a, SetBV) and isinstance(b, SetBV):
             return SetBV(z3.If(c, a.bv, b.bv))
         if is_fp_like(a) or is_fp_like(b):
@@ -236,6 +275,8 @@ class Translator:
             if isinstance(op, ast.BitXor):
                 return SetBV(a.bv ^ b.bv)
             raise Untranslatable("set operator")
+        if isinstance(op, ast.Add) and (is_str_like(a) or is_str_like(b)):
+            return z3.Concat(to_str(a), to_str(b))
         if isinstance(op, ast.Div):
             x, y = to_fp(a), to_fp(b)
             self.side.append(("divisor_nonzero", z3.Not(z3.fpIsZero(y))))
@@ -263,6 +304,60 @@ class Translator:
             self.side.append(("divisor_nonzero", y != 0))
             return x / y   # z3 Int division rounds toward -inf for positive divisors, like Python's //
         raise Untranslatable("int operator")
+
+    def ev_JoinedStr(self, node, env):
+        parts = []
+        for v in node.values:
+            if isinstance(v, ast.Constant):
+                parts.append(z3.StringVal(v.value))
+            elif isinstance(v, ast.FormattedValue):
+                if v.conversion != -1 or v.format_spec is not None:
+                    raise Untranslatable("f-string conversion / format spec")
+                parts.append(to_str(self.ev(v.value, env)))
+            else:
+                raise Untranslatable("f-string part")
+        if not parts:
+            return z3.StringVal("")
+        return parts[0] if len(parts) == 1 else z3.Concat(*parts)
+
+    def fresh_str(self, hint):
+        self._fresh = getattr(self, "_fresh", 0) + 1
+        return z3.String(f"{hint}!{self._fresh}")
+
+    def str_method(self, obj, name, args):
+        o = to_str(obj)
+        if name == "join" and len(args) == 1 and isinstance(args[0], (list, tuple)):
+            items = [to_str(x) for x in args[0]]
+            if not items:
+                return z3.StringVal("")
+            parts = [items[0]]
+            for it in items[1:]:
+                parts += [o, it]
+            return parts[0] if len(parts) == 1 else z3.Concat(*parts)
+        if name == "strip" and not args:
+            # contract of str.strip(): s = l . core . r, l and r whitespace, core neither starts nor ends with whitespace
+            l, core, r = self.fresh_str("l"), self.fresh_str("core"), self.fresh_str("r")
+            ws1 = z3.Union(*[z3.Re(c) for c in WS_CHARS])
+            anything = z3.Full(z3.ReSort(z3.StringSort()))
+            self.side.append(("strip_contract", z3.And(
+                o == z3.Concat(l, core, r), z3.InRe(l, ws_star()), z3.InRe(r, ws_star()),
+                z3.Not(z3.InRe(core, z3.Concat(ws1, anything))), z3.Not(z3.InRe(core, z3.Concat(anything, ws1))))))
+            return core
+        if name == "replace" and len(args) == 2:
+            if getattr(self, "abstract_replace", False) and isinstance(args[0], str) and isinstance(args[1], str) and args[0]:
+                # Regular over-approximation of the image of replace_all with constant pattern P and replacement R:
+                #   y in NOP . (R . NOP)*   where NOP = strings without an occurrence of P.
+                # Every real result lies in it (pieces between the replaced occurrences contain no P), so `unsat` under
+                # this abstraction is sound; a `sat` answer may be spurious and is reported as inconclusive.
+                anything = z3.Full(z3.ReSort(z3.StringSort()))
+                nop = z3.Complement(z3.Concat(anything, z3.Re(args[0]), anything))
+                y = self.fresh_str("replaced")
+                self.replaced_vars = getattr(self, "replaced_vars", []) + [(y, o)]
+                self.side.append(("replace_image_superset", z3.InRe(y, z3.Concat(nop, z3.Star(z3.Concat(z3.Re(args[1]), nop))))))
+                self.abstractions = getattr(self, "abstractions", []) + [f"replace({args[0]!r}, {args[1]!r}) -> image superset"]
+                return y
+            return replace_all(o, to_str(args[0]), to_str(args[1]))
+        raise Untranslatable(f"string method {name}")
 
     def ev_Lambda(self, node, env):
         return ("lambda", node, env)
@@ -294,6 +389,9 @@ class Translator:
         raise Untranslatable("iteration over unsupported collection")
 
     def ev_Call(self, node, env):
+        whole = ast.unparse(node)
+        if whole in env:
+            return env[whole]
         fname = ast.unparse(node.func)
         if fname in env and callable(env[fname]) and not isinstance(env[fname], type):
             return env[fname](*[self.ev(a, env) for a in node.args])
@@ -343,6 +441,8 @@ class Translator:
         # method call on a live object whose body we can translate recursively: obj.method(args)
         if isinstance(node.func, ast.Attribute):
             obj = self.ev(node.func.value, env)
+            if is_str_like(obj):
+                return self.str_method(obj, node.func.attr, [self.ev(a, env) for a in node.args])
             if isinstance(obj, dict) and node.func.attr == "get" and 1 <= len(node.args) <= 2:
                 key = self.ev(node.args[0], env)
                 default = self.ev(node.args[1], env) if len(node.args) == 2 else None
@@ -372,6 +472,11 @@ class Translator:
                 target = st.targets[0] if isinstance(st, ast.Assign) else st.target
                 if isinstance(st, ast.Assign) and len(st.targets) != 1:
                     raise Untranslatable("multiple assignment targets")
+                if isinstance(target, ast.Tuple) and all(isinstance(e, ast.Name) for e in target.elts):
+                    for e in target.elts:       # unpacking: values come from the caller's environment or stay opaque
+                        if e.id not in getattr(self, "frozen", ()):
+                            env[e.id] = Opaque(ast.unparse(st.value))
+                    continue
                 key = target.id if isinstance(target, ast.Name) else ast.unparse(target)
                 if not isinstance(target, (ast.Name, ast.Attribute)):
                     raise Untranslatable("assignment target")
@@ -381,6 +486,13 @@ class Translator:
                     env[key] = self.ev(st.value, env)
                 except Untranslatable:
                     env[key] = Opaque(ast.unparse(st.value))
+                continue
+            if isinstance(st, ast.With):
+                return self.run_body(list(st.body) + stmts[i + 1:], env)
+            if isinstance(st, ast.AugAssign) and isinstance(st.target, ast.Name) and isinstance(st.op, ast.Add):
+                cur = env[st.target.id]
+                val = self.ev(st.value, env)
+                env[st.target.id] = z3.Concat(to_str(cur), to_str(val)) if (is_str_like(cur) or is_str_like(val)) else to_int(cur) + to_int(val)
                 continue
             if isinstance(st, ast.If):
                 c = to_bool(self.ev(st.test, env))
